@@ -13,7 +13,9 @@ import (
 	updogv1 "github.com/akrennmair/updog/proto/updog/v1"
 	"github.com/akrennmair/updog/zzverif/rt"
 	"google.golang.org/grpc"
+	"google.golang.org/grpc/codes"
 	"google.golang.org/grpc/credentials/insecure"
+	"google.golang.org/grpc/status"
 )
 
 // updogServer is a real `updog server` child process on a loopback port plus a client connection.
@@ -67,13 +69,14 @@ func startServerBin(bin string, env []string, file string, cache, preload bool) 
 			rt.Harnessf("grpc client: %v", err)
 		}
 		s.client = updogv1.NewQueryServiceClient(s.conn)
-		// readiness: an empty batch must be answered (harness plumbing, not an oracle)
+		// readiness (harness plumbing, not an oracle): a query on a column that does not exist must come back, with an
+		// answer or with an error status from the handler - anything but "unavailable"
 		ready := false
 		for i := 0; i < 400; i++ {
 			ctx, cancel := context.WithTimeout(context.Background(), 2*time.Second)
-			_, err := s.client.Query(ctx, &updogv1.QueryRequest{})
+			_, err := s.client.Query(ctx, &updogv1.QueryRequest{Queries: []*updogv1.Query{{Expr: &updogv1.Query_Expression{Value: &updogv1.Query_Expression_Eq{Eq: &updogv1.Query_Expression_Equal{Column: "\x01readiness probe\x01", Value: "x"}}}}}})
 			cancel()
-			if err == nil {
+			if err == nil || (status.Code(err) != codes.Unavailable && status.Code(err) != codes.DeadlineExceeded) {
 				ready = true
 				break
 			}
